@@ -208,6 +208,7 @@ def _cfg(**kw):
     long_name = st.text(alphabet=st.characters(min_codepoint=32, max_codepoint=126), min_size=120, max_size=300)
     base["text"] = st.one_of(base["text"], base["text"], base["text"], long_name)
     base["twin_p"] = 5
+    base["share_instruments"] = True
     base.update(kw)
     return SG.Cfg(**base)
 
